@@ -58,8 +58,13 @@ class MerkleFamily(Family):
             else:
                 ln = rng.randint(1, n)
                 ops.append(('burst', [(rng.randint(1, n), rng.random()) for _ in range(rng.randint(2, 4))]))
-        return dict(plan=[dict(op=mode, n=n, ops=ops, lat=rng.choice([0.0, 0.01, 1.0]),
-                               seed=rng.getrandbits(32), target=prop, sweep=rng.choice(['up', 'shuffle', 'top']))])
+        op = dict(op=mode, n=n, ops=ops, lat=rng.choice([0.0, 0.01, 1.0]),
+                  seed=rng.getrandbits(32), target=prop, sweep=rng.choice(['up', 'shuffle', 'top']))
+        if rng.random() < 0.15:
+            # "every non-empty list of hashes": also lists in which hashes repeat (equal siblings that are no
+            # duplicated padding nodes)
+            op['alphabet'] = rng.choice([1, 2, 2, 3])
+        return dict(plan=[op])
 
     def execute(self, case, chooser, trace=False, logs=False):
         op = case['plan'][0]
@@ -90,6 +95,16 @@ class MerkleFamily(Family):
         ch = sim.ch
         n = op['n']
         state = dict(gen=0)
+        if op.get('alphabet'):
+            arng = random.Random(op['seed'] ^ 0x5eed)
+            amap = [arng.randrange(op['alphabet']) for _ in range(n)]
+            if op['alphabet'] == 2 and arng.random() < 0.5:
+                amap = [i % 2 for i in range(n)]
+
+            def leaf(i, gen):       # noqa: F811
+                return hashlib.sha256(b'%d:%d' % (amap[i], gen)).digest()
+        else:
+            leaf = globals()['leaf']
         leaves = [leaf(i, 0) for i in range(n)]
         merkle = Merkle()
         concurrent = op['op'] == 'concurrent'
@@ -117,8 +132,8 @@ class MerkleFamily(Family):
         def check(ln, idx, tsc, got, lists, where):
             """got must equal the from-scratch answer for one of `lists`."""
             stats['q'] += 1
-            if isinstance(got, Exception) and where == 'in flight':
-                # a request overlapping the change may be refused; it must not be answered wrongly
+            if isinstance(got, Exception) and where == 'in flight' and op.get('lenient'):
+                # (cases recorded before the in-flight oracle was tightened)
                 res.probes['inflight.refused'] += 1
                 return
             if isinstance(got, Exception):
